@@ -34,6 +34,36 @@ def all_cases(tier):
     return cs
 
 
+SELFTESTS = ["st_disjoint_ok", "st_neighbour_write_bad", "st_nowait_bad", "st_barrier_ok", "st_reduction_ok", "st_shared_accumulator_bad",
+             "st_critical_ok", "st_critical_check_outside_bad", "st_named_critical_ok", "st_two_names_bad", "st_atomic_ok", "st_single_ok",
+             "st_single_nowait_bad", "st_private_scratch_ok", "st_shared_scratch_bad"]
+
+
+def selftest_cases():
+    return [dict(id="%s_T%d" % (op, T), op=op, T=T, line="id=%s_T%d op=%s T=%d bound=1 perms=all audit=0" % (op, T, op, T))
+            for op in SELFTESTS for T in (2, 3)]
+
+
+def run_selftests(engine, rep):
+    """the race oracle on kernels with a known verdict; returns {name: verdict} for the evidence"""
+    cs = selftest_cases()
+    res, _ = mc_lib.run(engine, [(c["id"], c["line"]) for c in cs])
+    verdicts = {}
+    for c in cs:
+        r = res.get(c["id"], {"status": "crash", "kind": "missing"})
+        want_race = c["op"].endswith("_bad")
+        if r.get("status") != "ok":
+            got = "died (%s)" % (r.get("kind") or r.get("what"))
+        else:
+            got = "race" if int(r["conflicts"]) > 0 else "race-free"
+        verdicts[c["id"]] = got
+        if got != ("race" if want_race else "race-free"):
+            rep.violation("engine-selftest:%s" % c["op"], "the schedule explorer's own self-test %s (T=%d) must be judged %s but was judged %s: "
+                          "the engine or its build is broken, nothing it reports can be trusted" %
+                          (c["op"], c["T"], "a race" if want_race else "race free", got), {"case": c["line"], "sched": ""})
+    return verdicts
+
+
 def judge(c, r, engine):
     out = []
     if r.get("status") == "crash":
@@ -69,6 +99,7 @@ def judge(c, r, engine):
 def main(tier):
     rep = common.Reporter(PID, tier, LEVEL)
     engine, free = _build()
+    selftests = run_selftests(engine, rep)
     cs = all_cases(tier)
     res, vecs = mc_lib.run(engine, [(c["id"], c["line"]) for c in cs])
     tot = dict(schedules=0, epochs=0, blocks=0, accesses=0, granules=0, pairs=0, writerepochs=0, memops=0, auditblocks=0, regions=0, criticals=0)
@@ -92,6 +123,7 @@ def main(tier):
         "epochs_with_two_or_more_writers": tot["writerepochs"], "audited_blocks": tot["auditblocks"],
         "evaluations": len(cs), "distinct_nontrivial": nontrivial,
         "critical_sections_passed": tot.get("criticals", 0),
+        "engine_selftests": selftests,
         "cases_with_schedule_dependent_access_sets": sched_dep_access[:20],
         "team_sizes": tier_Ts(tier),
         "rule": "cases = {residual, smoother, extrapolated smoother, direct-solver assembly} x {give, take} x 48 shapes (circles 2..9, "
